@@ -41,8 +41,14 @@ def oracle(chk, p, r, m):
     ctxs = contexts_of(p)
     blds = projcheck.built(r)
     per_build = {}
+    prod = ninjaparse.producers(pn)
     for b in blds:
+        if ninjaparse.ambiguous(pn, b["outfile"], prod):
+            # several builds write one ${outfile} (C06 known finding "outfile-collision"): the closure of that target mixes builds
+            chk.count("skipped:outfile-with-several-producers")
+            continue
         per_build[(b["builder"], b["app"])] = compile_statements(pn, b["outfile"])
+    blds = [b for b in blds if (b["builder"], b["app"]) in per_build]
 
     def effective(st):
         rv = rules.get(st["rule"], {"vars": {}})["vars"]
@@ -132,7 +138,10 @@ def run(chk):
                 "pair of configured builds and every source both compile: equal object path <=> identical rule block and order-only deps, "
                 "equal path => one identical statement; non-shareable => objects/<builder>/<app>/ prefix; non-trivial = some pair of builds "
                 "shares an object and some pair does not; distinct by project hash")
-    projcheck.campaign(chk, PROF, n, OBS, oracle, nontrivial)
+    from . import grafts
+    k = 12 if chk.tier == "quick" else 300
+    extra = [g(projgen.gen_project(chk.seed + 760, i, PROF), i) for i in range(k) for g in (grafts.marker_build_dep, grafts.per_builder_generated)]
+    projcheck.campaign(chk, PROF, n, OBS, oracle, nontrivial, extra_projects=extra)
     chk.assumptions = ["HashOK: no 64-bit hash collision within a run"]
     return chk.finish()
 
